@@ -128,7 +128,7 @@ static std::set<std::string> valid_tokens() {
 
 void prop_c10(hz::Ctx &ctx) {
   hz::Rng rng(ctx.seed ^ 0xc10);
-  bool allp = ctx.thorough();
+  bool allp = true;   // every placement x mode (nine) in both tiers; thorough adds seeds/byte values
   // ---- (1) operand-kind tuples x86-64 does not define ----
   std::vector<std::string> tuples{""};
   { const char K[] = "rvymi"; std::vector<std::string> cur{""};
